@@ -97,7 +97,8 @@ def generate(rng, tier):
     # record_error is public: the first recorded message (whatever text it is, the empty string included) stays, later ones are dropped;
     # judged by the harness itself on the err attribute (the model records error kinds, not texts)
     for first in ["", " ", "0", "USB cable fault", "None"]:
-        for later in (["again"], ["", "x"], ["reconnect-old"], ["reconnect-none"], ["x", "reconnect-old", "y"]):
+        for later in (["again"], ["", "x"], ["reconnect-old"], ["reconnect-none"], ["x", "reconnect-old", "y"],
+                      ["e%d" % i for i in range(40)], ["reconnect-none"] * 34 + ["z"], ["reconnect-old", "reconnect-none"] * 20):      # a long tail of later errors (an application polling connect() for minutes)
             cases.append({"rec": [first] + later, "calls": [], "events": [], "family": "record_error/%r" % first})
     n = 250 if tier == "quick" else 15000
     for _ in range(n):
@@ -113,7 +114,7 @@ def generate(rng, tier):
 
 def _run_record(c):
     """a connected object; record_error(first); then further record_error calls / failing reconnects: err must stay the first message"""
-    script = S.Script(S.connect_script() + ["E", "E", ("L", "EBBv13_and_above EB Firmware Version 2.8.1")] * 3)
+    script = S.Script(S.connect_script() + ["E", "E", ("L", "EBBv13_and_above EB Firmware Version 2.8.1")] * 60)
     fp = S.install(script, S.GOOD_PORTS)
     try:
         obj = S.ebb3_motion.EBBMotionWrap()
